@@ -649,6 +649,7 @@ impl World for AgendaWorld {
                 "if the focus reported by get_focus() disagrees with the harness's focus stack the run stops being judged (counted in probe.focus_model_mismatch; 0 on the pinned tree)".into(),
                 "a loop that spins without ever invoking a rule action is outside the step budget; the driver's wall-clock watchdog is the backstop".into(),
             ],
+            hang_is_a_verdict: true,
             required_probes: vec![
                 "fault.clock_stalled_at_creation",
                 "fault.clock_minimum_step",
